@@ -1136,7 +1136,7 @@ func (mpt *MerklePatriciaTrie) mergeChanges(newRoot Key, changes []*NodeChange, 
 		return errors.New("optimistic lock failure")
 	}
 
-	for _, c := range changes {
+	for _, c := range orderChanges(changes) {
 		if _, _, err := mpt.insertNode(c.Old, c.New); err != nil {
 			return err
 		}
@@ -1150,6 +1150,43 @@ func (mpt *MerklePatriciaTrie) mergeChanges(newRoot Key, changes []*NodeChange, 
 
 	mpt.setRoot(newRoot)
 	return nil
+}
+
+// orderChanges returns the changes in an order in which a change that replaces a node is
+// applied before the change that (re)creates a node with the same key. The changes come out of
+// a map in random order; applying the creation first would let the replacement remove the
+// re-created node again although it is part of the merged trie.
+func orderChanges(changes []*NodeChange) []*NodeChange {
+	// replacing[k] = number of not yet applied changes whose old node has key k
+	replacing := make(map[string]int, len(changes))
+	for _, c := range changes {
+		if c.Old != nil {
+			replacing[c.Old.GetHash()]++
+		}
+	}
+	ordered := make([]*NodeChange, 0, len(changes))
+	pending := changes
+	for len(pending) > 0 {
+		var blocked []*NodeChange
+		for _, c := range pending {
+			if replacing[c.New.GetHash()] > 0 {
+				// some pending change still replaces the node this change creates
+				blocked = append(blocked, c)
+				continue
+			}
+			ordered = append(ordered, c)
+			if c.Old != nil {
+				replacing[c.Old.GetHash()]--
+			}
+		}
+		if len(blocked) == len(pending) {
+			// a cycle of replacements: no order is better than another
+			ordered = append(ordered, blocked...)
+			break
+		}
+		pending = blocked
+	}
+	return ordered
 }
 
 // MergeDB - merges the state changes from the node db directly
